@@ -335,7 +335,7 @@ def run(tier: str) -> int:
         pages = [rpage(rng, thorough) for _ in range(6000 if thorough else 800)]
         pf = d / "pages.json"
         pf.write_text(json.dumps(pages))
-        vcases = run_gen(o, "FILE", 16 if thorough else 8, known, tags_file, str(pf), inv="EmitF")
+        vcases = run_gen(o, "FILE", 16 if thorough else 8, known, tags_file, str(pf), inv="GenInvF")
         nolaw = [c for c in vcases if not c["law"]]
         if nolaw:
             raise common.TLCError(f"{len(nolaw)} random page(s) violate the model's own law, e.g. {ptree2.concretise(nolaw[0]['text'])!r}")
@@ -375,7 +375,7 @@ def selftest() -> int:
         pf = d / "pages.json"
         pf.write_text(json.dumps([page]))
         o = Outcome(PID, "quick")
-        cs = run_gen(o, "FILE", 1, set(), tags_file, str(pf), inv="EmitF")
+        cs = run_gen(o, "FILE", 1, set(), tags_file, str(pf), inv="GenInvF")
         text = ptree2.concretise(cs[0]["text"])
         ctx = ptree2.new_ctx(d)
         good = ptree2.node(ptree2.parse(ctx, text))
